@@ -909,3 +909,13 @@ def fw_stop_source_with_timeout():
     handlers = [['A', 'P', 'hA', [['ret', 'a']]], ['B', 'P', 'hB', [['sleep', 'd2'], ['ret', 'b']]], ['B', 'X', 'hXB', [['ret', 'x']]]]
     main = [['root', 'B', 'X', 'X0'], ['idle', 'B'], ['root', 'A', 'P', 'P1'], ['sleep', 't1'], ['stop', 'A', {'timeout': 0.3}], ['idle', 'B'], ['obs_all', 'end']]
     return dict(buses=['A', 'B'], order=['A', 'B'], reals={'d2': ['0', '2'], 't1': ['0', '1/5']}, handlers=handlers, forwards=[['A', 'B']], main=main, horizon=9)
+
+
+
+def restart_with_new_bus():
+    """the application's only bus is torn down with stop(clear=True) while its handler is mid-event and slow to unwind after the
+    cancellation; a new bus is created right away and used: its handler must not start while the old handler is still running."""
+    handlers = [['A', 'P', 'hP', [['sleep_cleanup', 'd1', 'd2'], ['ret', 'p']]]]
+    main = [['root', 'A', 'P', 'P1'], ['sleep', 't1'], ['stop', 'A', {'clear': True}],
+            ['new_bus', 'B', [['X', 'hX', [['ret', 'x']]]]], ['root', 'B', 'X', 'X1'], ['sleep', '2'], ['obs_all', 'end']]
+    return dict(buses=['A'], order=['A', 'B'], reals={'d1': ['1/5', '1'], 'd2': ['0', '1/2'], 't1': ['0', '1/10']}, handlers=handlers, main=main, horizon=8)
